@@ -53,7 +53,9 @@ class Prior(Distribution, Module, ABC):
         return module
 
     def __setattr__(self, name: str, value: Any) -> None:
-        if hasattr(self, name) and "_transformed_" in name:
+        # test the name first: `hasattr` on a lazy property of the distribution (e.g. `covariance_matrix` of
+        # MultivariateNormalPrior) evaluates it, which assigns it, which would call `hasattr` again without end
+        if "_transformed_" in name and hasattr(self, name):
             base_attr_name = name.replace("_transformed_", "")
             raise AttributeError(TRANSFORMED_ERROR_MSG.format(base_attr_name))
 
